@@ -41,6 +41,65 @@ NONDETERMINISTIC_CALLS = {"hash", "id", "uuid4", "uuid1", "time", "time_ns", "ge
 LOCATION_ATTRS = {"co_filename", "co_firstlineno", "co_lnotab", "co_linetable", "__file__"}
 
 
+# --------------------------------------------------------------------------------- helpers
+def _flow(fa, expr, at=None, _seen=None, _out=None):
+    """Every AST node whose value can reach `expr` by evaluation and copying: the sub-expressions of
+    `expr` and, for each local name read in it, the sub-expressions of the values assigned by the
+    definitions of that name that reach the read (transitively).  Returned as {id(node): node}."""
+    out = _out if _out is not None else {}
+    seen = _seen if _seen is not None else set()
+    if expr is None:
+        return out
+    ats = [at] if at is not None else fa.nodes(expr)
+    for n in ast.walk(expr):
+        out[id(n)] = n
+    for a in ats:
+        for n in ast.walk(expr):
+            if isinstance(n, ast.Name) and isinstance(n.ctx, ast.Load):
+                for d in fa.df.reaching(a, n.id):
+                    if d.value is None or (d.node, d.name) in seen:
+                        continue
+                    seen.add((d.node, d.name))
+                    _flow(fa, d.value, d.node, seen, out)
+    return out
+
+
+def _reads_attr(fa, expr, attr, at=None):
+    """Does the value of `expr` derive from `<something>.attr` / getattr(<something>, 'attr'[, default])?"""
+    for n in _flow(fa, expr, at).values():
+        if isinstance(n, ast.Attribute) and n.attr == attr:
+            return True
+        if isinstance(n, ast.Call) and A.call_attr(n) == "getattr" and len(n.args) >= 2 and A.const_str(n.args[1]) == attr:
+            return True
+    return False
+
+
+def _digest_fed_and_returned(fa, pred):
+    """Is there a hasher object `h` with an `h.update(<arg>)` such that pred(arg, node) holds, an
+    `h.hexdigest()` / `h.digest()` on the same object after it, and a return whose value derives from that
+    digest?  (Whatever the names of the hasher and of the temporaries, and whether the digest is
+    returned directly or through a variable.)"""
+    digs = [c for c in fa.calls() if A.call_attr(c) in ("hexdigest", "digest") and isinstance(A.call_recv(c), ast.Name)]
+    for u in fa.calls("update"):
+        rcv = A.call_recv(u)
+        if not isinstance(rcv, ast.Name) or not u.args:
+            continue
+        for un in fa.nodes(u):
+            if not pred(u.args[0], un):
+                continue
+            after = fa.cfg.reach([un])
+            for dg in digs:
+                if A.call_recv(dg).id != rcv.id:
+                    continue
+                for dn in fa.nodes(dg):
+                    if dn not in after or not fa.df.same_defs(rcv.id, un, dn):
+                        continue
+                    for r in fa.returns():
+                        if r.value is not None and fa.nodes(r) and id(dg) in _flow(fa, r.value):
+                            return True
+    return False
+
+
 # --------------------------------------------------------------------------------- C01.R1
 def check_hash_input_coverage(ck, R):
     ck.rule(R, "hash-input coverage: every code-object attribute the interpreter consults when running a function, and "
@@ -105,13 +164,43 @@ def check_hash_input_coverage(ck, R):
             continue
         ck.ob(R, h.key(None, attr), ok, "%s reaches the digest" % attr if ok else
               "%s (%s) is not part of the code hash: an edit that only changes it keeps the version, and a stale result is served" % (attr, why), h.where())
-    # co_consts recursion
+    # co_consts recursion: some iteration over <obj>.co_consts that maps every element through the hasher
+    # itself (directly, or through a local lambda / def that does nothing but call the hasher on its
+    # argument) feeds the list that is digested
+    def is_hasher_call(call, var, depth=0):
+        if not (isinstance(call, ast.Call) and call.args and isinstance(call.args[0], ast.Name) and call.args[0].id == var):
+            return False
+        f = call.func
+        if isinstance(f, ast.Name) and f.id in (h.fi.name, h.node.name):
+            return True
+        if isinstance(f, ast.Name) and depth < 3:
+            # a local alias of the hasher
+            for st in h.stmts(ast.Assign):
+                if any(isinstance(t, ast.Name) and t.id == f.id for t in st.targets) and isinstance(st.value, ast.Lambda) \
+                        and st.value.args.args and isinstance(st.value.body, ast.Call):
+                    if is_hasher_call(st.value.body, st.value.args.args[0].arg, depth + 1):
+                        return True
+            sub = h.fi.nested.get(f.id)
+            if sub is not None and sub.params:
+                rets = [x for x in A.walk_body(sub.node) if isinstance(x, ast.Return)]
+                if len(rets) == 1 and len(A.sig_stmts(sub.node.body)) == 1 and is_hasher_call(rets[0].value, sub.params[0], depth + 1):
+                    return True
+        return False
+
     rec = False
+    feed_flow = {}
     for s in h.stmts(ast.Assign):
         if any(isinstance(t, ast.Name) and t.id == feed for t in s.targets):
-            for comp in [n for n in ast.walk(s.value) if isinstance(n, (ast.ListComp, ast.GeneratorExp))]:
-                if A.norm(comp.generators[0].iter) == obj + ".co_consts" and isinstance(comp.elt, ast.Call) and A.call_attr(comp.elt) == h.fi.name:
-                    rec = True
+            _flow(h, s.value, None, None, feed_flow)
+    for c in h.calls("append") + h.calls("extend"):
+        if A.norm(A.call_recv(c)) == feed:
+            for a in c.args:
+                _flow(h, a, None, None, feed_flow)
+    for comp in [n for n in feed_flow.values() if isinstance(n, (ast.ListComp, ast.GeneratorExp))]:
+        g0 = comp.generators[0]
+        if len(comp.generators) == 1 and not g0.ifs and isinstance(g0.target, ast.Name) and A.norm(g0.iter) == obj + ".co_consts" \
+                and is_hasher_call(comp.elt, g0.target.id):
+            rec = True
     ck.ob(R, h.key(None, "consts-recursive"), rec, "constants are hashed recursively (nested functions, lambdas, comprehensions)" if rec else
           "co_consts is not hashed through the hasher itself: edits inside nested code objects are invisible", h.where())
     # salt / environment
@@ -129,8 +218,8 @@ def check_hash_input_coverage(ck, R):
     for attr, why in FUNC_RELEVANT.items():
         ok = attr in got
         if ok:
-            # must flow into the returned value
-            ok = any("call:update" in outer.deps(r.value) or "call:hexdigest" in outer.deps(r.value) for r in outer.returns() if r.value is not None and isinstance(r.value, ast.Name))
+            # it is fed to a digest whose value is returned
+            ok = _digest_fed_and_returned(outer, lambda arg, at, attr=attr: _reads_attr(outer, arg, attr, at))
         ck.ob(R, outer.key(None, attr), ok, "%s reaches the digest" % attr if ok else
               "%s (%s) is not part of the code hash: editing a default value keeps the version, and a stale result is served" % (attr, why), outer.where())
     # every return of a code-based hash passes the reads of the defaults (no early exit, e.g.
@@ -293,22 +382,31 @@ def check_digest_consumes_rules(ck, R):
     ups = [c for c in A.calls_in(lp.ast) if A.call_attr(c) == "update"]
     okh = len(ups) == 1
     if okh:
-        g = fa.enclosing(ups[0], ast.If)
         lv = lp.ast.target.id if isinstance(lp.ast.target, ast.Name) else None
         # fields of the loop variable assigned, inside the loop, from compute_hash()
-        hash_fields = {A.norm(s.targets[0]) for s in A.walk_local(lp.ast)
-                       if isinstance(s, ast.Assign) and len(s.targets) == 1 and isinstance(s.targets[0], ast.Attribute)
-                       and isinstance(s.targets[0].value, ast.Name) and s.targets[0].value.id == lv
-                       and "call:compute_hash" in fa.deps(s.value)}
+        hash_fields = {A.norm(t) for s in A.walk_local(lp.ast)
+                       if isinstance(s, ast.Assign) and "call:compute_hash" in fa.deps(s.value)
+                       for t in s.targets
+                       if isinstance(t, ast.Attribute) and isinstance(t.value, ast.Name) and t.value.id == lv}
 
         def is_hash(e):
             return "call:compute_hash" in fa.deps(e) or any(A.norm(x) in hash_fields for x in ast.walk(e) if isinstance(x, ast.Attribute))
 
-        t = g.test if g is not None else None
-        okh = t is not None and isinstance(t, ast.Compare) and len(t.ops) == 1 and isinstance(t.ops[0], ast.IsNot) \
-            and A.norm(t.comparators[0]) == "None" and is_hash(t.left) and fa.inside(g, lp.ast)
-        inner_ifs = [i for i in A.walk_local(lp.ast) if isinstance(i, ast.If)]
-        okh = okh and len(inner_ifs) == 1 and not any(isinstance(s, (ast.Continue, ast.Break)) for s in A.walk_local(lp.ast))
+        # texts of `<the rule's hash> is None` as FA.conditions spells it (locals expanded)
+        none_lits = {f_ + " is None" for f_ in hash_fields}
+        for c_ in [c_ for c_ in A.calls_in(lp.ast) if A.call_attr(c_) == "compute_hash"]:
+            none_lits.add(fa.xnorm(c_, fa.nodes(c_)[0]) + " is None")
+        # decided on PATH CONDITIONS: the update is reached exactly when the hash is not None (whether written
+        # as `if h is not None: update`, `if h is None: continue`, or nested), and an iteration is abandoned
+        # early only when the hash is None; the loop is never left early
+        cu = fa.conditions(ups[0])
+        okh = cu is not None and len(cu) == 1 and len(next(iter(cu))) == 1 and all(l[0] in none_lits and l[1] is False for l in next(iter(cu)))
+        for s_ in A.walk_local(lp.ast):
+            if isinstance(s_, (ast.Break, ast.Return)):
+                okh = False
+            if isinstance(s_, ast.Continue):
+                cc = fa.conditions(s_)
+                okh = okh and cc is not None and all(any(l[0] in none_lits and l[1] is True for l in conj) for conj in cc)
         okh = okh and is_hash(ups[0].args[0])
     ck.ob(R, fa.key(lp.ast, "only-none-filter"), okh, "every non-None rule hash updates the digest" if okh else
           "a rule's hash can be skipped for a reason other than being None (or the digest is fed something else)", fa.where(lp.ast))
@@ -324,13 +422,17 @@ def check_digest_consumes_rules(ck, R):
             cf = ck.repo.try_func(cls.qual + ".compute_hash")
             if cf is None:
                 continue
-            for r in [n for n in A.walk_body(cf.node) if isinstance(n, ast.Return) and n.value is not None]:
-                for at in [x for x in ast.walk(r.value) if isinstance(x, ast.Attribute) and A.norm(x.value).endswith("memento_fn")]:
+            cfa = FA(ck, cf)
+            for r in [r_ for r_ in cfa.returns() if r_.value is not None and cfa.nodes(r_)]:
+                # attributes of the tracked function that can be returned (through temporaries or not)
+                for at in [x for x in _flow(cfa, r.value).values() if isinstance(x, ast.Attribute) and A.norm(x.value).endswith("memento_fn")]:
                     asg = [st for st in init.stmts(ast.Assign) if any(A.norm(t) == "self." + at.attr for t in st.targets)]
                     for st in asg:
                         ps = sorted(_copied_params(init, st.value, init.nodes(st)[0]))
                         if ps and at.attr not in [f[0] for f in free]:
-                            free.append((at.attr, ps, cls.name))
+                            free.append((at.attr, ps, cls.name, st.lineno))
+        # canonical order: the order in which the constructor assigns the fields
+        free.sort(key=lambda f: f[3])
         okf = delimited or not free
         ck.ob(R, fa.key(ups[0], "fold-injective:" + ",".join(f[0] for f in free)), okf,
               "rule hashes are folded with a delimiter" if delimited else "every folded piece has a fixed width" if okf else
